@@ -140,6 +140,41 @@ def check_runner(lr, paths=None):
                 add("table graph does not connect the first column's table to the last column's table", path=sp,
                     tables=[str(fo), str(last.parent)])
     fails += check_graph(g)
+    fails += check_holders(lr)
+    return fails
+
+
+HOLDER_NOT_PROJ = "statement holder does not project: a column edge between table-owned columns does not go from a read table to the written table"
+
+
+def check_holders(lr):
+    """the hypothesis `Projection.HolderOK` of the Lean theorem `Props.C06.fold_projects`, evaluated on the IMPLEMENTATION's statement
+    holders: a statement that is not a RENAME; every LINEAGE edge between two columns owned by a Table / Path goes from a column of
+    a dataset the statement READS to a column of a dataset it WRITES; a holder with DROP tags has no such edge"""
+    nx, Column, Path, SubQuery, Table, EdgeType = _imports()
+    fails = []
+    for i, h in enumerate(getattr(lr, "_stmt_holders", [])):
+        g = h.graph
+        rd, wr = h.read, h.write
+        for u, v, attr in g.edges(data=True):
+            if not (isinstance(u, Column) and isinstance(v, Column)):
+                continue
+            pu, pv = u.parent, v.parent
+            if not (isinstance(pu, (Table, Path)) and isinstance(pv, (Table, Path))):
+                continue
+            bad = None
+            if h.rename:
+                bad = "a RENAME statement carries column lineage"
+            elif h.drop:
+                bad = "a DROP statement carries column lineage"
+            elif pu not in rd:
+                bad = "the source column's table is not read by the statement"
+            elif pv not in wr:
+                bad = "the target column's table is not written by the statement"
+            if bad and len(fails) < 10:
+                fails.append({"class": HOLDER_NOT_PROJ, "detail": {"statement": i, "why": bad, "edge": [str(u), str(v)],
+                                                                   "path": [str(u), str(v)], "table": str(pu if "source" in bad else pv),
+                                                                   "read": sorted(str(t) for t in rd), "write": sorted(str(t) for t in wr)}})
     return fails
 
 
